@@ -8,9 +8,16 @@ typedef struct fftw_plan_s *fftw_plan;
 #define FFTW_ESTIMATE (1U << 6)
 #define FFTW_MEASURE (0U)
 int fftw_init_threads(void); void fftw_plan_with_nthreads(int);
-fftw_plan fftw_plan_many_dft(int,const int*,int,fftw_complex*,const int*,int,int,fftw_complex*,const int*,int,int,int,unsigned);
-fftw_plan fftw_plan_many_dft_r2c(int,const int*,int,double*,const int*,int,int,fftw_complex*,const int*,int,int,unsigned);
-fftw_plan fftw_plan_many_dft_c2r(int,const int*,int,fftw_complex*,const int*,int,int,double*,const int*,int,int,unsigned);
+/* parameter names follow the FFTW manual (4.4.1 Advanced Complex DFTs, 4.4.2 Advanced Real-data DFTs); the
+   checks bind roles through them */
+fftw_plan fftw_plan_many_dft(int rank, const int *n, int howmany, fftw_complex *in, const int *inembed, int istride,
+                             int idist, fftw_complex *out, const int *onembed, int ostride, int odist, int sign,
+                             unsigned flags);
+fftw_plan fftw_plan_many_dft_r2c(int rank, const int *n, int howmany, double *in, const int *inembed, int istride,
+                                 int idist, fftw_complex *out, const int *onembed, int ostride, int odist,
+                                 unsigned flags);
+fftw_plan fftw_plan_many_dft_c2r(int rank, const int *n, int howmany, fftw_complex *in, const int *inembed, int istride,
+                                 int idist, double *out, const int *onembed, int ostride, int odist, unsigned flags);
 void fftw_execute(const fftw_plan); void fftw_destroy_plan(fftw_plan);
 void *fftw_malloc(size_t); void fftw_free(void*);
 double *fftw_alloc_real(size_t); fftw_complex *fftw_alloc_complex(size_t);
